@@ -99,10 +99,41 @@ def matrix():
     print("written seeded/RESULTS.md")
 
 
+def matrix_update(props):
+    """Re-run the seeds of the given properties plus every seed that has no row in seeded/RESULTS.md yet; keep the
+    other rows as they are (their checks did not change)."""
+    import concurrent.futures as cf
+    path = "/verif/seeded/RESULTS.md"
+    lines = open(path).read().splitlines()
+    head, rows = lines[:4], {}
+    for l in lines[4:]:
+        if l.startswith("| "):
+            rows[l.split("|")[1].strip()] = l
+    ids = sorted(d for d in os.listdir("/verif/seeded") if os.path.isdir(os.path.join("/verif/seeded", d)))
+    todo = [i for i in ids if i not in rows or json.load(open("/verif/seeded/%s/meta.json" % i))["property"] in props]
+    print("re-running", len(todo), "of", len(ids)); sys.stdout.flush()
+    with cf.ThreadPoolExecutor(max_workers=4) as ex:
+        for r in ex.map(lambda i: detect("/verif/seeded/" + i), todo):
+            print(json.dumps(r)[:200]); sys.stdout.flush()
+            meta = json.load(open("/verif/seeded/%s/meta.json" % r["id"]))
+            kinds = sorted(set(w.split("kind=")[1].split()[0] for w in r["lines"] if "kind=" in w))
+            rows[r["id"]] = "| %s | %s | %s | %s | %s |" % (
+                r["id"], r["property"], "yes" if r["exit"] == 1 and kinds else ("n/a (patch superseded)" if r["exit"] == -1 else "NO"),
+                ", ".join(kinds), meta.get("needs_to_manifest", "").replace("|", "/").replace("\n", " ")[:300])
+    with open(path, "w") as f:
+        f.write("\n".join(head) + "\n")
+        for k in sorted(rows):
+            f.write(rows[k] + "\n")
+    print("updated seeded/RESULTS.md:", sum(1 for v in rows.values() if "| yes |" in v), "of", len(rows), "detected")
+
+
 if __name__ == "__main__":
     cmd = sys.argv[1]
     if cmd == "matrix":
         matrix()
+        sys.exit(0)
+    if cmd == "matrix-update":
+        matrix_update(set(sys.argv[2:]))
         sys.exit(0)
     args = [a for a in sys.argv[2:] if not a.startswith("--")]
     tier = "thorough" if "--thorough" in sys.argv else "quick"
